@@ -48,7 +48,7 @@ func VerifC17Name() {
 	wd := root + "/w/" + dir
 	vrtDir(wd)
 	// name: in compose files
-	nameCase := vrtChoice("fileName", 4) // 0 none, 1 first file literal, 2 both files (last wins), 3 interpolated ${NV}
+	nameCase := vrtChoice("fileName", 6) // 0 none, 1 first file literal, 2 both files (last wins), 3 interpolated ${NV}, 4 / 5 in a later YAML document of the first file
 	fileName := ""
 	base := map[string]any{"services": map[string]any{"s": map[string]any{"image": "i"}}}
 	over := map[string]any{"services": map[string]any{"s": map[string]any{"hostname": "h"}}}
@@ -69,7 +69,24 @@ func VerifC17Name() {
 		base["name"] = "${NV}"
 		envList = append(envList, "NV="+fileName)
 	}
-	vrtYamlFile(wd+"/compose.yaml", base)
+	switch nameCase {
+	case 4, 5:
+		// the first file is a stream of two documents; the name sits in the second one (5: and another one in the first)
+		fileName = vrtString("nameDoc2", L, alpha)
+		second := map[string]any{"services": map[string]any{"s": map[string]any{"user": "u"}}}
+		if fileName != "" {
+			second["name"] = fileName
+		}
+		if nameCase == 5 {
+			base["name"] = "first"
+			if fileName == "" {
+				fileName = "first"
+			}
+		}
+		vrtYamlFile(wd+"/compose.yaml", base, second)
+	default:
+		vrtYamlFile(wd+"/compose.yaml", base)
+	}
 	vrtYamlFile(wd+"/over.yaml", over)
 	// COMPOSE_PROJECT_NAME: absent / OS env / .env
 	cpn := vrtChoice("cpn", 3)
@@ -178,11 +195,21 @@ func VerifC17Env() {
 	}
 	vrtFile(wd+"/one.env", f1)
 	vrtFile(wd+"/two.env", f2)
+	// the files as the caller lists them: a later entry wins, also when it names a file already listed
+	listing := vrtChoice("listing", 3)
+	files := []string{wd + "/one.env", wd + "/two.env"}
+	switch listing {
+	case 1:
+		files = append(files, wd+"/one.env")
+	case 2:
+		vrtDir(wd + "/sub")
+		files = append(files, wd+"/sub/../one.env")
+	}
 	var opts []ProjectOptionsFn
 	if vrtChoice("order", 2) == 0 {
-		opts = []ProjectOptionsFn{WithName("p"), WithWorkingDirectory(wd), WithEnv(explicitEnv), WithOsEnv, WithEnvFiles(wd+"/one.env", wd+"/two.env"), WithDotEnv}
+		opts = []ProjectOptionsFn{WithName("p"), WithWorkingDirectory(wd), WithEnv(explicitEnv), WithOsEnv, WithEnvFiles(files...), WithDotEnv}
 	} else {
-		opts = []ProjectOptionsFn{WithName("p"), WithWorkingDirectory(wd), WithOsEnv, WithEnv(explicitEnv), WithEnvFiles(wd+"/one.env", wd+"/two.env"), WithDotEnv}
+		opts = []ProjectOptionsFn{WithName("p"), WithWorkingDirectory(wd), WithOsEnv, WithEnv(explicitEnv), WithEnvFiles(files...), WithDotEnv}
 	}
 	po, err := NewProjectOptions([]string{wd + "/compose.yaml"}, opts...)
 	vrtAssert("options-ok", err == nil)
@@ -203,6 +230,8 @@ func VerifC17Env() {
 		want = "ex" + v
 	case inOS:
 		want = "os" + v
+	case in1 && listing != 0:
+		want = "one" + v // listed again after two.env
 	case in2:
 		want = "two" + v
 	case in1:
@@ -214,6 +243,9 @@ func VerifC17Env() {
 	vrtObserve("X", got)
 	vrtAssert("variable-presence", ok == set)
 	vrtAssert("variable-precedence", got == want)
+	if listing != 0 {
+		return
+	}
 	if in1 && in2 && !inExplicit && !inOS {
 		// X comes from an earlier file and from an earlier line of the same file: which of the two a
 		// reference sees is not fixed by the statement
